@@ -602,16 +602,17 @@ func (vfs *OrefaFS) OpenFile(name string, flag int, perm fs.FileMode) (avfs.File
 		}
 
 		vfs.mu.Lock()
-		defer vfs.mu.Unlock()
 
-		// test for race conditions when opening file in exclusive mode.
-		_, childOk = vfs.nodes[absPath]
-		if childOk && om&avfs.OpenCreateExcl != 0 {
-			return (*OrefaFile)(nil), &fs.PathError{Op: op, Path: name, Err: vfs.err.FileExists}
+		// the file may have been created since the first lookup : it must not be replaced.
+		child, childOk = vfs.nodes[absPath]
+		if !childOk {
+			child = vfs.createFile(parent, absPath, fileName, perm)
 		}
 
-		child = vfs.createFile(parent, absPath, fileName, perm)
-	} else {
+		vfs.mu.Unlock()
+	}
+
+	if childOk {
 		if child.mode.IsDir() {
 			if om&avfs.OpenWrite != 0 {
 				return (*OrefaFile)(nil), &fs.PathError{Op: op, Path: name, Err: vfs.err.IsADirectory}
@@ -918,14 +919,14 @@ func (vfs *OrefaFS) stat(path, op string) (fs.FileInfo, error) {
 	absPath, _ := vfs.Abs(path)
 	dirName, fileName := avfs.SplitAbs(vfs, absPath)
 
+	// the index stays locked until the information is read, so that the node can't be removed in between.
 	vfs.mu.RLock()
+	defer vfs.mu.RUnlock()
+
 	child, childOk := vfs.nodes[absPath]
-	vfs.mu.RUnlock()
 
 	if !childOk {
-		vfs.mu.RLock()
 		parent, parentOk := vfs.nodes[dirName]
-		vfs.mu.RUnlock()
 
 		if !parentOk {
 			return nil, &fs.PathError{Op: op, Path: path, Err: vfs.err.NoSuchDir}
